@@ -42,7 +42,7 @@ def canary(beh):
 def run(tier, seed):
     res = core.Result(PROP, tier, seed)
     nparts = 8
-    r = tlc.run_sharded("MC_C01", "c01." + tier, nparts, dict(Tier=tier, Seed=seed),
+    r = tlc.run_sharded("MC_C01", "c01." + tier, nparts, dict(Tier=tier, Seed=seed, ValSeed=seed),
                         invariants=["InvSize", "InvRequestedShape", "InvPsd"], timeout=3000)
     res.add_tlc("MC_C01", r)
     if r["violated"]:
